@@ -150,6 +150,13 @@ Fixpoint load_from (rules : list rule) (ht : htrees) : option htrees :=
     else None
   end.
 Definition load_rules (rules : list rule) : option htrees := load_from rules ht_empty.
+(* the exported API used directly (NewBasicRouteRuleTree + Insert per rule, no loader checks): None = an Insert failed *)
+Fixpoint insert_from (rules : list rule) (ht : htrees) : option htrees :=
+  match rules with
+  | [] => Some ht
+  | r :: rest => match tree_insert r ht with Some ht' => insert_from rest ht' | None => None end
+  end.
+Definition insert_all (rules : list rule) : option htrees := insert_from rules ht_empty.
 
 (* ---------- specification: the documented precedence (docs/zh_cn/introduction/route.md), written on the
    rule list itself, without trees and without string reversal ---------- *)
